@@ -43,6 +43,12 @@ def interp(ctx, shape, pos, lkind='f', k=1, fills='default', issorted=None, dkin
     cells = ctx.cells(dkind, ncell, 'v', nan=nan)
     attrs = {'units': 'K'}
     a = ctx.mk(dims, labels, cells, lkinds=lkinds, kind=dkind, attrs=attrs)
+    # the other axes carry metadata of their own ("leaves the other axes ... unchanged")
+    for i, ax in enumerate(a.axes):
+        if i != pos:
+            ax.attrs['units'] = 'u%d' % i
+    if ctx.operands:
+        ctx.operands[-1]['axis_attrs'] = [dict(ax.attrs) for ax in a.axes]
     ref = Ref(dims, labels, cells)
     old = labels[pos]
     n = shape[pos]
@@ -83,7 +89,8 @@ def interp(ctx, shape, pos, lkind='f', k=1, fills='default', issorted=None, dkin
             q[pos] = i
             ys.append(ref.at(q))
         exp.append(interp_value(ctx, xs, ys, new[p[pos]], left, right))
-    return ctx.done(same(ctx, r[1], Ref(dims, elabels, exp), attrs=attrs), ctx.observe(r[1]))
+    others_ok = isinstance(r[1], ctx.da.DimArray) and len(r[1].axes) == nd and all(dict(r[1].axes[i].attrs) == {'units': 'u%d' % i} for i in range(nd) if i != pos)
+    return ctx.done(ctx.AND(same(ctx, r[1], Ref(dims, elabels, exp), attrs=attrs), others_ok), ctx.observe(r[1]))
 
 
 def interp_like2(ctx, via):
@@ -121,7 +128,7 @@ def interp_like2(ctx, via):
     return ctx.done(same(ctx, r[1], Ref(['x', 'y'], [nx, ny], [exp]), attrs=attrs), ctx.observe(r[1]))
 
 
-def dataset_interp(ctx, n, k, fills='default'):
+def dataset_interp(ctx, n, k, fills='default', via='interp_axis'):
     """Dataset.interp_axis: variables with the axis are interpolated like DimArrays (labels in any stored order), others unchanged"""
     da = ctx.da
     lx = ctx.labels('f', n, 'lx')
@@ -144,7 +151,19 @@ def dataset_interp(ctx, n, k, fills='default'):
         kw = {'left': left, 'right': right}
     else:
         left = right = float('nan')
-    r = ctx.call(lambda: ds.interp_axis(list(new), axis='x', **kw))
+    if via == 'interp_axis':
+        r = ctx.call(lambda: ds.interp_axis(list(new), axis='x', **kw))
+    elif via == 'interp_axis-pos':
+        r = ctx.call(lambda: ds.interp_axis(list(new), axis=list(ds.dims).index('x'), **kw))
+    elif via == 'like-dimarray':
+        other = ctx.mk(['x', 'other'], [new, [0]], [0.0] * k, lkinds=['f', 'i'], register=False)
+        r = ctx.call(lambda: ds.interp_like(other, **kw))
+    elif via == 'like-dataset':
+        ods = da.Dataset()
+        ods['o'] = ctx.mk(['x'], [new], [0.0] * k, lkinds=['f'], register=False)
+        r = ctx.call(lambda: ds.interp_like(ods, **kw))
+    else:
+        raise ValueError(via)
     if r[0] != 'ok':
         return ctx.done(False, r[1])
     res = r[1]
@@ -193,6 +212,9 @@ def templates():
     for n, k in ((2, 1), (3, 1), (3, 2)):
         for fills in ('default', 'sym'):
             add('dataset-n%d-k%d-%s' % (n, k, fills), 'dataset_interp', 'quick' if (n, k) != (3, 2) or fills == 'sym' else 'thorough', cost={(2, 1): 1, (3, 1): 4, (3, 2): 20}[(n, k)], n=n, k=k, fills=fills)
+    for via in ('interp_axis-pos', 'like-dimarray', 'like-dataset'):
+        for fills in ('default', 'sym'):
+            add('dataset-%s-%s' % (via, fills), 'dataset_interp', cost=2, n=2, k=1, fills=fills, via=via)
     add('like-1d', 'interp', cost=1, shape=[3], pos=0, k=2, like=True)
     add('like-2d', 'interp', cost=2, shape=[2, 3], pos=1, k=2, like=True, fills='sym')
     return ts
